@@ -116,6 +116,17 @@ class Report:
 def finish(report, tier, t0, explanation, assumptions, rule_text, extra_cov=None, seed=0):
     """Write evidence, print KNOWN-FINDING / VIOLATION lines, return exit code."""
     prop = report.prop
+    seed = int(os.environ.get("VERIF_SEED", seed) or 0)
+    if tier == "thorough" and os.environ.get("CBV_REPO", "/repo") == "/repo":
+        from . import selftest
+        st = selftest.run(prop)
+        extra_cov = dict(extra_cov or {}, selftest=st)
+        for m in st:
+            if m["outcome"] == "MISSED":
+                report.fatal.append("selftest: seeded mutation %s is not reported by the %s check (expected key containing "
+                                    "%s)" % (m["patch"], prop, m["expect_key_contains"]))
+            report.counters["selftest_" + m["outcome"].lower().replace("-", "_")] = \
+                report.counters.get("selftest_" + m["outcome"].lower().replace("-", "_"), 0) + 1
     known = load_known(prop)
     os.makedirs(EVIDENCE, exist_ok=True)
     os.makedirs(REPLAY, exist_ok=True)
